@@ -40,6 +40,9 @@ class Impl(B.Impl):
             return ift.VariableCovarianceGaussianEnergy(self.dom, B.key(t[2]), B.key(t[3]), np.float64, use_full_fisher=bool(t[1]))
         if t[0] == "ham":
             return ift.StandardHamiltonian(self.op(t[1]))
+        if t[0] == "eaddE":
+            # sum of NON-likelihood energies (Hamiltonians): Operator.__add__ -> _OpSum, specialised recursively
+            return self.op(t[1]) + self.op(t[2])
         return super().op(t)
 
     def dense(self, lin, dkeys, m):
@@ -123,7 +126,7 @@ class Impl(B.Impl):
 
 
 def is_energy(t):
-    return t[0] in ("gauss", "escale", "eadd", "vcg", "ham")
+    return t[0] in ("gauss", "escale", "eadd", "vcg", "ham", "eaddE")
 
 
 def tree_keys(t):
@@ -311,6 +314,8 @@ def ham_offset(impl, t, x, S):
         return t[1] * ham_offset(impl, t[2], x, S)
     if k == "ham":
         return ham_offset(impl, t[1], x, S) + 0.5 * sum(float(np.dot(x[kk], x[kk])) for kk in keys if kk in S)
+    if k == "eaddE":
+        return ham_offset(impl, t[1], x, S) + ham_offset(impl, t[2], x, S)
     return 0.0
 
 
@@ -727,6 +732,10 @@ class C04(C.Check):
                     t = ("ham", ("vcg", int(it % 12 == 0), kr, ki))
                 elif r == 2:
                     t = ("ham", ("escale", 2.0, t))
+            if is_energy(t) and it % 4 == 0 and t[0] != "ham":
+                # sum of two Hamiltonians on (partly) different keys: one of them may become fully constant
+                k2 = int(rng.integers(0, K))
+                t = ("eaddE", ("ham", t), ("ham", ("gauss", None, None, ("ptw", "tanh", [], ("var", k2)))))
             if len(tree_keys(t)) < 2:
                 continue
             for S in subsets(tree_keys(t)):
